@@ -26,7 +26,7 @@ use std::sync::atomic::{AtomicU64, Ordering};
 
 pub struct C14;
 
-pub const NAMES: &[&str] = &["a", "b c", "é", "x%20y", "a.b", "n.md", "d/a", "d e/a", "a#b", "v1.2/a"];
+pub const NAMES: &[&str] = &["a", "b c", "é", "x%20y", "a.b", "n.md", "d/a", "d e/a", "a#b", "v1.2/a", "i.mdx"];
 pub const BASES: &[&str] = &["plain", "space", "slash", "symlink"];
 const LINKER: &str = "zz";
 
